@@ -14,7 +14,9 @@ import (
 	"fmt"
 	"hash/fnv"
 	"os"
+	"runtime"
 	"sync"
+	"sync/atomic"
 	"syscall"
 	"time"
 )
@@ -25,6 +27,9 @@ const (
 	blocked
 	done
 	created
+	// realblocked: the task is inside an operation of the code under test that may block in the Go runtime
+	// (a channel operation); it gave the token back before it and asks for it again afterwards (real.go)
+	realblocked
 )
 
 // Task is one schedulable goroutine.
@@ -39,6 +44,10 @@ type Task struct {
 	prio    int
 	started bool
 	fn      func()
+	// real blocking regions (real.go)
+	goid      int64
+	completed uint32
+	status    string
 }
 
 // Event is one entry of the schedule log.
@@ -95,6 +104,13 @@ type Sched struct {
 	// over: the run has ended cleanly; daemon tasks still parked are released so that their goroutines (and
 	// the OS threads they occupy in the raw read) go away. From then on every scheduler call is a no-op.
 	over bool
+	// real blocking regions (real.go)
+	nReal       int
+	monCh       chan struct{}
+	RealOps     int // operations that went through a real blocking region (channel operations of the code under test)
+	RealParked  int // ... of which really parked in the Go runtime at least once
+	TimeSources int // timers / deadlines created by the code under test that the scheduler does not control
+	mon         Task
 }
 
 // stallAfter is the wall-clock guard of one scheduled run (runs take milliseconds).
@@ -104,8 +120,22 @@ var active *Sched
 
 // Active returns the scheduler of the run in progress, or nil.
 //
+// A goroutine that is not the running task of that run - one left behind by an earlier run of this process, parked
+// in a channel operation until something outside woke it - gets nil: it runs on as a plain goroutine.
+//
 //go:norace
-func Active() *Sched { return active }
+func Active() *Sched {
+	s := active
+	if s != nil && s.cur != nil && s.cur.goid != 0 && realEver > 0 && s.cur.goid != curGoid() {
+		if os.Getenv("VERIF_DEBUG_ACTIVE") != "" {
+			buf := make([]byte, 4096)
+			n := runtime.Stack(buf, false)
+			fmt.Fprintf(os.Stderr, "ACTIVE-GUARD cur=%s goid=%d me=%d\n%s\n", s.cur.Name, s.cur.goid, curGoid(), buf[:n])
+		}
+		return nil
+	}
+	return s
+}
 
 // New creates a scheduler for one run.
 func New(st Strategy, maxSteps int) *Sched {
@@ -122,6 +152,8 @@ func New(st Strategy, maxSteps int) *Sched {
 		panic(err)
 	}
 	s.mainR, s.mainW = p[0], p[1]
+	s.monCh = make(chan struct{}, 64)
+	s.mon = Task{ID: -1, Name: "monitor", state: done}
 	return s
 }
 
@@ -174,6 +206,7 @@ func (s *Sched) Go(name string, daemon bool, fn func()) *Task {
 }
 
 func (s *Sched) taskMain(t *Task) {
+	s.setGoid(t)
 	rawRead(t.rfd) // wait for the token
 	if s.isOver() {
 		s.closeTask(t)
@@ -183,6 +216,9 @@ func (s *Sched) taskMain(t *Task) {
 	defer s.finish(t)
 	t.fn()
 }
+
+//go:norace
+func (s *Sched) setGoid(t *Task) { t.goid = curGoid() }
 
 //go:norace
 func (s *Sched) isOver() bool { return s.over }
@@ -345,6 +381,9 @@ func (s *Sched) dispatch(from *Task) {
 			rawWrite(s.mainW)
 			select {}
 		}
+		if s.nReal > 0 {
+			s.settle()
+		}
 		cands := s.runnableTasks()
 		if len(cands) == 0 {
 			unfinished := false
@@ -365,6 +404,9 @@ func (s *Sched) dispatch(from *Task) {
 				return
 			}
 			if s.OnQuiesce != nil && s.OnQuiesce() {
+				continue
+			}
+			if s.nReal > 0 && s.graceWait() {
 				continue
 			}
 			s.Deadlock = true
@@ -397,9 +439,16 @@ func (s *Sched) dispatch(from *Task) {
 
 //go:norace
 func (s *Sched) describeStuck() {
+	var dump map[int64]string
 	for _, t := range s.tasks {
 		if t.state == blocked {
 			s.Stuck = append(s.Stuck, fmt.Sprintf("%s blocked on %v", t.Name, describe(t.on)))
+		}
+		if t.state == realblocked {
+			if dump == nil {
+				dump = allStacks()
+			}
+			s.Stuck = append(s.Stuck, fmt.Sprintf("%s blocked in a channel operation [%s]", t.Name, dump[t.goid]))
 		}
 	}
 }
@@ -531,6 +580,7 @@ func (s *Sched) Run() {
 		fmt.Fprintf(os.Stderr, "VERIF-STALL: a scheduled run did not finish within %v of wall-clock time (a task blocked outside the scheduler's seams?)\n", stallAfter)
 		os.Exit(97)
 	}()
+	go s.monitor()
 	s.start()
 	rawRead(s.mainR)
 	if !s.aborted() {
@@ -560,14 +610,21 @@ func (s *Sched) stop() {
 		// every task is done or a daemon parked for ever; pipes of finished tasks can go
 		s.over = true
 		for _, t := range s.tasks {
-			if t.state == done {
+			switch {
+			case t.state == done:
 				syscall.Close(t.rfd)
 				syscall.Close(t.wfd)
-			} else {
+			case t.state == realblocked && atomic.LoadUint32(&t.completed) == 0:
+				// a daemon parked in a channel operation nobody will complete: its goroutine stays (as it would in
+				// the real program); should it ever wake it finds the token waiting and runs on unsupervised
+				rawWrite(t.wfd)
+				leakedReal++
+			default:
 				rawWrite(t.wfd) // a daemon parked for ever: let its goroutine run to its end
 			}
 		}
 	}
+	close(s.monCh) // the monitor leaves
 	syscall.Close(s.mainR)
 	syscall.Close(s.mainW)
 }
